@@ -232,7 +232,7 @@ pub fn show_steps(steps: &[Step]) -> String {
     }
     steps
         .iter()
-        .map(|s| format!("{}>{}>{}", show_tasks(&s.enabled), s.choice, show_tasks(&s.spawned)))
+        .map(|s| format!("{}>{}>{}@{}/{}", show_tasks(&s.enabled), s.choice, show_tasks(&s.spawned), s.done, s.total))
         .collect::<Vec<_>>()
         .join("|")
 }
